@@ -20,6 +20,7 @@ type evalCtx struct {
 	oldBind map[string]SV
 	lookup  func(name string) (SV, bool) // fallback resolution (loop variables, locals)
 	noOpaqueDefs bool                    // assumption of a callee contract: opaque specs stay uninterpreted
+	calleeSide   bool                    // the clause is a callee's (or slot's) postcondition assumed at a call site
 	facts   *[]string                    // when set, defining equations of spec applications are collected here instead of being asserted globally
 	depth   int
 	what    string
@@ -328,8 +329,21 @@ func (c *evalCtx) eval(e ast.Expr) SV {
 		cfail("index of %s", base.t)
 	case *ast.SliceExpr:
 		base := c.eval(x.X)
+		if enc.R.sortOf(base.t) == "Slice" && x.Max == nil {
+			// s[lo:hi] of a slice, as the code computes it (same array, offset and capacity moved)
+			sl := base.term
+			lo := bvLit(0, 64)
+			hi := fmt.Sprintf("(sl-len %s)", sl)
+			if x.Low != nil {
+				lo = c.toInt64(c.eval(x.Low))
+			}
+			if x.High != nil {
+				hi = c.toInt64(c.eval(x.High))
+			}
+			return SV{t: base.t, term: fmt.Sprintf("(mk-slice (sl-ref %s) (bvadd (sl-off %s) %s) (bvsub %s %s) (bvsub (sl-cap %s) %s))", sl, sl, lo, hi, lo, sl, lo)}
+		}
 		if enc.R.sortOf(base.t) != "Str" {
-			cfail("slice expression only on strings in contracts")
+			cfail("slice expression only on strings and slices in contracts")
 		}
 		lo := bvLit(0, 64)
 		hi := fmt.Sprintf("(slen %s)", base.term)
@@ -501,6 +515,15 @@ func (c *evalCtx) binary(x *ast.BinaryExpr) SV {
 	} else {
 		a = c.coerce(a, b.t)
 		b = c.coerce(b, a.t)
+	}
+	if (x.Op == token.EQL || x.Op == token.NEQ) && a.cval == nil && b.cval == nil && a.term != "nil-slice" && b.term != "nil-slice" &&
+		enc.R.sortOf(a.t) == "Slice" && enc.R.sortOf(b.t) == "Slice" {
+		// two slice values (not a comparison with nil): the same array, offset, length, capacity
+		eq := fmt.Sprintf("(= %s %s)", a.term, b.term)
+		if x.Op == token.NEQ {
+			eq = not(eq)
+		}
+		return SV{t: types.Typ[types.Bool], term: eq}
 	}
 	// pointer/iface nil comparisons, typed values
 	term := enc.binopTerm(nil, x.Op, a, b, a.t, b.t, token.NoPos)
@@ -716,6 +739,12 @@ func (c *evalCtx) call(x *ast.CallExpr) SV {
 		argn(1)
 		id, ok := x.Args[0].(*ast.Ident)
 		top := enc.top
+		if ok {
+			// in a callee's ensures assumed at a call site: the callee's own event, unknown here
+			if b, isB := c.bind["called!"+id.Name]; isB {
+				return b
+			}
+		}
 		if !ok || top == nil || top.contract == nil {
 			cfail("called() needs the ghost name of a calls clause")
 		}
@@ -730,10 +759,45 @@ func (c *evalCtx) call(x *ast.CallExpr) SV {
 		}
 		cfail("called(%s): no calls clause binds that name", id.Name)
 		panic("unreachable")
+	case "decimalOf":
+		// the number a decimal numeral produced by strconv.Itoa/FormatInt(.,10) denotes
+		argn(1)
+		v := c.materialise(c.coerce(c.eval(x.Args[0]), types.Typ[types.String]))
+		enc.R.extra("(declare-fun decimal-of (Str) (_ BitVec 64))")
+		return SV{t: types.Typ[types.Int64], term: fmt.Sprintf("(decimal-of %s)", v.term)}
+	case "ncalls":
+		// ncalls(g): how many calls matching "calls F(...) as g" have happened so far
+		argn(1)
+		id, ok := x.Args[0].(*ast.Ident)
+		top := enc.top
+		if !ok || top == nil || top.contract == nil || c.calleeSide {
+			cfail("ncalls() needs the ghost name of a calls clause of this function")
+		}
+		for k, cs := range top.contract.Calls {
+			if cs.As == id.Name {
+				cnt, ok := c.heap[ghostCntKey(k)]
+				if !ok {
+					cnt = bvLit(0, 64)
+				}
+				// a 64-bit count (wrap-around after 2^63 calls is not a concern of any proof here)
+				return SV{t: types.Typ[types.Int64], term: cnt}
+			}
+		}
+		cfail("ncalls(%s): no calls clause binds that name", id.Name)
+		panic("unreachable")
 	case "fresh":
 		// allocated by this function (pre-existing references are >= 0): pointers, maps, slices
 		argn(1)
 		v := c.eval(x.Args[0])
+		if c.calleeSide {
+			// "allocated by the callee" has no counterpart in the caller's numbering (what a
+			// callee returns is a reference like any other there): the truth value is left
+			// open, which only weakens what the call site may assume
+			switch v.t.Underlying().(type) {
+			case *types.Pointer, *types.Map, *types.Slice:
+				return SV{t: boolT, term: enc.declare(enc.fresh("callee!fresh"), "Bool")}
+			}
+		}
 		switch v.t.Underlying().(type) {
 		case *types.Pointer, *types.Map:
 			return SV{t: boolT, term: fmt.Sprintf("(< %s 0)", v.term)}
@@ -860,6 +924,27 @@ func (c *evalCtx) applySpec(sf *SpecFunc, args []ast.Expr) SV {
 		}
 		return SV{t: rt, term: fmt.Sprintf("(%s %s)", sf.Name, strings.Join(ts, " "))}
 	}
+	// "fold f": an opaque spec applied to a term with a bound variable of a contract
+	// quantifier is not unfolded there; the application stays a term of the uninterpreted
+	// function (defined, as always, at the closed terms it is applied to).  Fewer facts for
+	// the solver, never more: a proof-search device for quantified invariants over specs
+	// with heavy bodies.
+	if sf.Opaque && enc.folds(sf.Name) && len(vals) > 0 {
+		open := false
+		var ss, ts []string
+		for _, v := range vals {
+			if strings.Contains(v.term, "q!") {
+				open = true
+			}
+			ss = append(ss, enc.R.sortOf(v.t))
+			ts = append(ts, v.term)
+		}
+		if open {
+			rt := sc.resolveType(sf.Ret)
+			enc.R.extra(fmt.Sprintf("(declare-fun spec!%s (%s) %s)", sf.Name, strings.Join(ss, " "), enc.R.sortOf(rt)))
+			return SV{t: rt, term: fmt.Sprintf("(spec!%s %s)", sf.Name, strings.Join(ts, " "))}
+		}
+	}
 	nb := map[string]SV{}
 	for i, p := range sf.Params {
 		nb[p.Name] = vals[i]
@@ -885,7 +970,7 @@ func (c *evalCtx) applySpec(sf *SpecFunc, args []ast.Expr) SV {
 	// Heap-independent specs over closed arguments are kept opaque: the application is an
 	// uninterpreted term with its defining equation asserted for exactly these arguments.
 	// (Congruence then relates equal arguments without unfolding the body.)
-	if enc.heapTouch == touch0 && len(vals) > 0 && len(res.term) > 40 {
+	if enc.heapTouch == touch0 && len(vals) > 0 && (len(res.term) > 40 || sf.Opaque) {
 		closed := true
 		var ts, ss []string
 		for _, v := range vals {
@@ -900,6 +985,10 @@ func (c *evalCtx) applySpec(sf *SpecFunc, args []ast.Expr) SV {
 			enc.R.extra(fmt.Sprintf("(declare-fun %s (%s) %s)", name, strings.Join(ss, " "), enc.R.sortOf(res.t)))
 			app := fmt.Sprintf("(%s %s)", name, strings.Join(ts, " "))
 			if c.facts != nil && c.noOpaqueDefs && sf.Opaque && !enc.unfolds(sf.Name) {
+				return SV{t: res.t, term: app}
+			}
+			if sf.Opaque && enc.folds(sf.Name) {
+				// "fold f": this function's proof does not need the definition of f at all
 				return SV{t: res.t, term: app}
 			}
 			if c.facts != nil {
@@ -989,6 +1078,15 @@ func (e *FnEnc) floatBits(x string) string {
 	}
 	e.R.extra("(declare-fun fbits (Float64) (_ BitVec 64))")
 	b := fmt.Sprintf("(fbits %s)", x)
+	if strings.Contains(x, "q!") {
+		// x mentions a bound variable of a contract quantifier: the property is stated once
+		// for all x, triggered on the applications of fbits
+		if _, done := e.fbits["forall"]; !done {
+			e.fbits["forall"] = ""
+			e.decls = append(e.decls, "(assert (forall ((fx Float64)) (! (= ((_ to_fp 11 53) (fbits fx)) fx) :pattern ((fbits fx)))))")
+		}
+		return b
+	}
 	e.decls = append(e.decls, fmt.Sprintf("(assert (= ((_ to_fp 11 53) %s) %s))", b, x))
 	e.fbits[x] = b
 	return b
@@ -1057,6 +1155,18 @@ func (c *evalCtx) tryType(s string) (t types.Type) {
 		return tv.Type
 	}
 	return nil
+}
+
+func (e *FnEnc) folds(spec string) bool {
+	if e.C == nil {
+		return false
+	}
+	for _, u := range e.C.Fold {
+		if u == spec {
+			return true
+		}
+	}
+	return false
 }
 
 func (e *FnEnc) unfolds(spec string) bool {
